@@ -29,7 +29,7 @@ def _known_collide(entry):
     return tmpl_python.known_collide(entry)
 
 
-KNOWN = {"F18": _known_f18, "PY_COLLIDE": _known_collide}
+KNOWN = {"F18": _known_f18, "PY_COLLIDE": _known_collide, "PY_COLLIDE_PARTIAL": _known_collide}
 
 KIND = {"L": "literal", "T": "templated", "Z": "templated", "C": "comment", "S": "block_start", "E": "block_end",
         "M": "block_mid", "X": "escaped"}
